@@ -766,7 +766,9 @@ pub fn run_c12(ctx: &Ctx) -> Report {
         if HAVE_CLOCK {
             subs.push(bfs_sentences(ctx, "bfs_sentences_timeout_3ns", 2, 3, if ctx.thorough() { v3 } else { v2 }));
         }
-        subs.push(bfs_sentences(ctx, "bfs_sentences_timeout_0", 13, 0, if ctx.reduced { v2 } else { v3 }));
+        if HAVE_CLOCK {
+            subs.push(bfs_sentences(ctx, "bfs_sentences_timeout_0", 13, 0, if ctx.reduced { v2 } else { v3 }));
+        }
     }
     // encode / feed / poll
     {
